@@ -207,7 +207,14 @@ func TestGovcBoundedC16Positions(t *testing.T) {
 		{"module m { namespace \"urn:m\"; prefix m;\r\n leaf a { type string {\r\n\t", "length \"abc\";", " } } }"},
 		{"module m { namespace \"urn:m\"; prefix m; container c {\n   ", "uses nosuchgrouping;", " } }"},
 		{"module m { namespace \"urn:m\"; prefix m; leaf e { type enumeration { enum a { value 1; }\n\t ", "enum b { value 1; }", " } } }"},
+		// a foreign prefix: the imported module lacks the typedef, or nothing is imported under the prefix
+		{"module m { namespace \"urn:m\"; prefix m; import o { prefix o; }\n\n  leaf a {\n\t", "type o:nosuch;", " } }"},
+		{"module m { namespace \"urn:m\"; prefix m; import o { prefix o; }\n  typedef td { ", "type o:nosuch { length \"1..2\"; }", " }\n leaf a { type td; } }"},
+		{"module m { namespace \"urn:m\"; prefix m; import o { prefix o; }\n  leaf a { type union { type string;\n     ", "type o:nosuch;", " } } }"},
+		{"module m { namespace \"urn:m\"; prefix m; import o { prefix o; }\n  leaf a { /* x */ ", "type q:ot;", " } }"},
 	}
+	other := "module o { namespace \"urn:o\"; prefix o; typedef ot { type string; } }"
+	locRE := regexp.MustCompile(`f\.yang:(\d+):(\d+)`)
 	for _, sf := range sems {
 		evals++
 		w := &govcWriter{line: 1, col: 1}
@@ -216,6 +223,9 @@ func TestGovcBoundedC16Positions(t *testing.T) {
 		text := sf.before + sf.stmt + sf.after
 		ms := NewModules()
 		var msgs []string
+		if err := ms.Parse(other, "o.yang"); err != nil {
+			msgs = append(msgs, err.Error())
+		}
 		if err := ms.Parse(text, "f.yang"); err != nil {
 			msgs = append(msgs, err.Error())
 		} else {
@@ -237,6 +247,27 @@ func TestGovcBoundedC16Positions(t *testing.T) {
 		if !found {
 			fmt.Printf("GOVC-FAIL name=c16-semantic-positions %q starts at %s, the errors say %q\n", sf.stmt, wantLoc, msgs)
 		}
+		// every position named in an error is the start of a statement of the file
+		starts := map[string]bool{}
+		if ss, err := Parse(text, "f.yang"); err == nil {
+			var collect func(s *Statement)
+			collect = func(s *Statement) {
+				starts[s.Location()] = true
+				for _, k := range s.SubStatements() {
+					collect(k)
+				}
+			}
+			for _, s := range ss {
+				collect(s)
+			}
+			for _, m := range msgs {
+				for _, loc := range locRE.FindAllString(m, -1) {
+					if !starts[loc] {
+						fmt.Printf("GOVC-FAIL name=c16-semantic-positions %q: the error names %s, where no statement starts: %q\n", sf.stmt, loc, m)
+					}
+				}
+			}
+		}
 	}
-	fmt.Printf("GOVC-BOUNDED name=c16-positions-vs-generator bound=%d_generated_texts_(seed_%d)_+_42_lexical_and_7_semantic_faults evaluations=%d distinct=%d\n", texts, seed, evals, stmts)
+	fmt.Printf("GOVC-BOUNDED name=c16-positions-vs-generator bound=%d_generated_texts_(seed_%d)_+_42_lexical_and_11_semantic_faults evaluations=%d distinct=%d\n", texts, seed, evals, stmts)
 }
